@@ -23,6 +23,7 @@ open Flamego Flamego.Driver
 def dispatch (o : Oracle) (kind : String) (args : List String) (body : List (List String)) : List String :=
   match kind with
   | "writer" => Writer.session args body
+  | "writer2" => Writer.session2 args body
   | "router" => Router.session o.engine args body
   | "ret" => Ret.session args body
   | "retseq" => Ret.seqSession args body
